@@ -383,6 +383,12 @@ def rule_bound(ctx):
     r.info('%d evaluations; dropped: %s' % (n, sorted('%s:%s' % k for k, d in dropped.items() if d)))
     _judge(dropped, lambda bound, c, msg: r.violate('ConstantFolding.visit_SliceIndexNode:%s:%s' % (bound, c), OPT, fdef.lineno,
                                                     'visit_SliceIndexNode: ' + msg))
+    # constant sequences: the item list may only be cut when no multiplier is attached
+    for has_mult, returned_base, cut in folded_multiplier_problem(f, cls, fdef, OPT):
+        r.inst('constant-sequence:%s' % ('multiplied' if has_mult else 'plain'), sample='constant sequence%s: %s' % (' * n' if has_mult else '', 'items cut' if cut else 'kept'))
+        if has_mult and cut:
+            r.violate('ConstantFolding.visit_SliceIndexNode:constant-sequence:multiplier', OPT, fdef.lineno,
+                      'visit_SliceIndexNode cuts the item list of a constant sequence that carries a multiplier: ([a, b, c, d] * n)[1:3] is compiled as [b, c] * n')
     # the anchor: this is the place where a constant None bound becomes "no bound" (only an analysis problem if nothing else is wrong)
     for bound in ('start', 'stop'):
         if not dropped.get((bound, 'none')) and not r.findings:
@@ -396,3 +402,1506 @@ def rule_bound(ctx):
     r.positive_control(('stop', 'zero') in hits and ('stop', 'positive') not in hits and not any(b == 'start' for b, _ in hits),
                        'truthiness test on the stop constant drops 0 / False / 0.0 / empty-string bounds')
     return r
+
+
+# ==============================================================================================================
+# Fourth round (mutation brainstorming): rules over the mechanisms that the interface / guard rules do not reach
+# ==============================================================================================================
+from ..engine import cexpr
+from ..engine.cutil import strip_c_comments
+from .slicenorm import Lin, lin, Region, INF, Unproven
+
+SIZE_CALL = re.compile(r'(?:_GET_SIZE|_GET_LENGTH|_Size|_Length|_GetLength|^sq_length|^mp_length)$')
+
+
+def _callee(fn):
+    if fn[0] == 'id':
+        return fn[1]
+    if fn[0] == 'mem':
+        return fn[3]
+    return None
+
+
+# ---------------------------------------------------------------------------------------------- C15-AMOUNT
+class AmountScan:
+    """What is added to an index?  Abstract interpretation of one C function on sets of linear forms over the symbols
+    IDX (the incoming index) and LEN (the length of the indexed container, recognised as a size accessor applied to the
+    container parameter, or through `is_len`).  Every assignment that writes the index parameter (or `*p` of an index pointer
+    parameter), and every assignment to another variable whose new value depends on IDX, must leave IDX + 0 or IDX + LEN.
+    Conditions are evaluated only as far as the wrap-around flag (assumed on: that is when an amount is added) decides them."""
+
+    def __init__(self, fname, typed_params, body, is_len=None, index=None, flags=None):
+        self.fname, self.body = fname, body
+        self.flags = {'wraparound': 1}
+        self.flags.update(flags or {})
+        self.container = next((n for t, n in typed_params if n and 'PyObject' in t and t.count('*') == 1), None)
+        self.index = index
+        self.index_ptr = None
+        for t, n in typed_params:
+            tt = t.replace(' ', '')
+            if self.index is None and self.index_ptr is None and n:
+                if tt == 'Py_ssize_t':
+                    self.index = n
+                elif tt == 'Py_ssize_t*':
+                    self.index_ptr = n
+        if self.index is None and self.index_ptr is None:
+            raise AnalysisError('%s: no Py_ssize_t index parameter' % fname)
+        self.is_len = is_len
+        self.problems = {}
+        self.adds = []          # (target, description) of every assignment that adds LEN
+        self.limits = []        # bounds tests against LEN
+
+    # ---- values: frozenset of Lin
+    def sym(self, name):
+        return Lin(0, {name: 1})
+
+    def size_call(self, e):
+        if e[0] != 'call':
+            return None
+        name = _callee(e[1])
+        if not name or not SIZE_CALL.search(name) or not e[2]:
+            return None
+        a = P.strip_wrappers(e[2][0])
+        if a == ('id', self.container):
+            return self.sym('LEN')
+        return self.sym('LEN(%s)' % P.c_text(a))
+
+    def cond(self, e, env):
+        """True / False / None under the flag assumptions"""
+        e = P.strip_wrappers(e)
+        if e[0] == 'num':
+            return bool(e[1])
+        if e[0] == 'id' and e[1] in self.flags and e[1] not in env.get('#written', ()):
+            return bool(self.flags[e[1]])
+        if e[0] == 'un' and e[1] == '!':
+            c = self.cond(e[2], env)
+            return None if c is None else not c
+        if e[0] == 'bin' and e[1] in ('&&', '&'):
+            a, b = self.cond(e[2], env), self.cond(e[3], env)
+            if a is False or b is False:
+                return False
+            return True if (a and b) else None
+        if e[0] == 'bin' and e[1] in ('||', '|'):
+            a, b = self.cond(e[2], env), self.cond(e[3], env)
+            if a or b:
+                return True
+            return False if (a is False and b is False) else None
+        return None
+
+    def ev(self, e, env):
+        e = P.strip_wrappers(e)
+        k = e[0]
+        if self.is_len is not None and self.is_len(e):
+            return frozenset([self.sym('LEN')])
+        if k == 'num':
+            return frozenset([Lin(e[1])]) if e[1] is not None else frozenset([self.sym('num?')])
+        if k == 'id':
+            return env.get(e[1], frozenset([self.sym('v:' + e[1])]))
+        if k == 'un' and e[1] == '*' and e[2][0] == 'id':
+            return env.get('*' + e[2][1], frozenset([self.sym('v:*' + e[2][1])]))
+        if k == 'un' and e[1] == '-':
+            return frozenset(-v for v in self.ev(e[2], env))
+        if k == 'call':
+            s = self.size_call(e)
+            if s is not None:
+                return frozenset([s])
+            return frozenset([self.sym('call:' + P.c_text(e)[:40])])
+        if k == 'tern':
+            c = self.cond(e[1], env)
+            if c is True:
+                return self.ev(e[2], env)
+            if c is False:
+                return self.ev(e[3], env)
+            return self.ev(e[2], env) | self.ev(e[3], env)
+        if k == 'bin' and e[1] in ('+', '-'):
+            out = set()
+            for a in self.ev(e[2], env):
+                for b in self.ev(e[3], env):
+                    out.add(a + b if e[1] == '+' else a - b)
+            if len(out) > 16:
+                raise AnalysisError('%s: too many possible values for %s' % (self.fname, P.c_text(e)))
+            return frozenset(out)
+        if k == 'bin' and e[1] == '*':
+            out = set()
+            for a in self.ev(e[2], env):
+                for b in self.ev(e[3], env):
+                    if a.const:
+                        out.add(b.scale(a.c))
+                    elif b.const:
+                        out.add(a.scale(b.c))
+                    else:
+                        out.add(self.sym('expr:' + P.c_text(e)[:40]))
+            return frozenset(out)
+        if k == 'assign':
+            return self.assign(e, env)
+        if k == 'comma':
+            self.ev(e[1], env)
+            return self.ev(e[2], env)
+        return frozenset([self.sym('expr:' + P.c_text(e)[:40])])
+
+    def target(self, l):
+        l = P.strip_wrappers(l)
+        if l[0] == 'id':
+            return l[1]
+        if l[0] == 'un' and l[1] == '*' and l[2][0] == 'id':
+            return '*' + l[2][1]
+        return None
+
+    def store(self, name, vals, env, what):
+        primary = name == self.index or (self.index_ptr is not None and name == '*' + self.index_ptr)
+        idx = 'IDX'
+        for v in vals:
+            c = v.k.get(idx, 0)
+            if not primary and c == 0:
+                continue
+            if c != 1 and not primary:
+                continue            # a quantity derived from the index (a distance, a count), not a copy of it
+            if c != 1:
+                self.problems.setdefault('amount:%s' % name,
+                                         '%s: `%s` %s the index instead of adding the container length to it (new value %r)' % (
+                                             self.fname, what, 'overwrites' if c == 0 else 'scales', v))
+                continue
+            delta = v - self.sym(idx)
+            if delta == Lin(0):
+                continue
+            if delta == self.sym('LEN'):
+                self.adds.append((name, what))
+                continue
+            self.problems.setdefault('amount:%s' % name,
+                                     '%s: `%s` adds %r to the index; Python wrap-around adds exactly the length of the indexed container (LEN): '
+                                     'negative indices address the wrong element / raise IndexError' % (self.fname, what, delta))
+        env[name] = frozenset(vals)
+        if name in self.flags:
+            env['#written'] = env.get('#written', frozenset()) | {name}
+
+    def assign(self, e, env):
+        op, l, r = e[1], e[2], e[3]
+        name = self.target(l)
+        rv = self.ev(r, env)
+        if name is None:
+            return rv
+        if op == '=':
+            new = rv
+        elif op in ('+=', '-='):
+            cur = env.get(name, frozenset([self.sym('v:' + name)]))
+            new = frozenset((a + b) if op == '+=' else (a - b) for a in cur for b in rv)
+        else:
+            new = frozenset([self.sym('expr:' + P.c_text(e)[:40])])
+        self.store(name, new, env, P.c_text(e))
+        return new
+
+    def run(self):
+        env = {}
+        if self.index is not None:
+            env[self.index] = frozenset([self.sym('IDX')])
+        else:
+            env['*' + self.index_ptr] = frozenset([self.sym('IDX')])
+        self.stmt(self.body, env)
+        return self
+
+    def carries_index(self, vals):
+        return any(v.k.get('IDX', 0) == 1 for v in vals)
+
+    def check_limits(self, e, env):
+        """every bounds comparison of an index-carrying value is against 0 or the length of the indexed container"""
+        if not isinstance(e, tuple):
+            return
+        if e[0] == 'call' and _callee(e[1]) == P.VALID_TEST and len(e[2]) == 2:
+            a, b = self.ev(e[2][0], dict(env)), self.ev(e[2][1], dict(env))
+            if self.carries_index(a):
+                self.limits.append(P.c_text(e))
+                for v in b:
+                    if v != self.sym('LEN'):
+                        self.problems.setdefault('limit:%s' % P.VALID_TEST, '%s: the bounds test `%s` compares the index with %r instead of the length of the indexed container (LEN): '
+                                                 'valid indices are rejected / out-of-range ones accepted' % (self.fname, P.c_text(e), v))
+        if e[0] == 'bin' and e[1] in ('<', '<=', '>', '>='):
+            a, b = self.ev(e[2], dict(env)), self.ev(e[3], dict(env))
+            for x, y, ye in ((a, b, e[3]), (b, a, e[2])):
+                if self.carries_index(x) and not self.carries_index(y):
+                    for v in y:
+                        if not (v.const or (v - self.sym('LEN')).const):
+                            self.problems.setdefault('limit:compare', '%s: `%s` compares the index with %r; a bound of an index is 0 or the length of the indexed container (LEN)'
+                                                     % (self.fname, P.c_text(e), v))
+                        elif not v.const:
+                            self.limits.append(P.c_text(e))
+        for x in e[1:]:
+            if isinstance(x, tuple):
+                self.check_limits(x, env)
+            elif isinstance(x, list):
+                for y in x:
+                    self.check_limits(y, env)
+
+    def stmt(self, s, env):
+        k = s[0]
+        if k in ('if', 'expr', 'return') and s[1] is not None:
+            self.check_limits(s[1], env)
+        elif k == 'decl':
+            for name, init, typ in s[1]:
+                if init is not None:
+                    self.check_limits(init, env)
+        if k == 'block':
+            for x in s[1]:
+                self.stmt(x, env)
+        elif k == 'if':
+            c = self.cond(s[1], env)
+            self.scan_expr(s[1], env)
+            a, b = dict(env), dict(env)
+            if c is not False:
+                self.stmt(s[2], a)
+            if s[3] is not None and c is not True:
+                self.stmt(s[3], b)
+            merged = {}
+            arms = ([a] if c is not False else []) + ([b] if c is not True else [])
+            for key in set().union(*[set(x) for x in arms]) if arms else ():
+                vals = frozenset().union(*[x.get(key, env.get(key, frozenset())) for x in arms])
+                merged[key] = vals
+            env.clear()
+            env.update(merged)
+        elif k == 'decl':
+            for name, init, typ in s[1]:
+                if init is not None:
+                    self.store(name, self.ev(init, env), env, '%s = %s' % (name, P.c_text(init)))
+        elif k in ('expr', 'return'):
+            if s[1] is not None:
+                self.scan_expr(s[1], env)
+
+    def scan_expr(self, e, env):
+        """evaluate for the sake of embedded assignments / increments"""
+        e0 = P.strip_wrappers(e)
+        if e0[0] in ('assign', 'comma'):
+            self.ev(e0, env)
+            return
+        if e0[0] in ('un', 'post') and e0[1] in ('++', '--'):
+            name = self.target(e0[2])
+            if name is not None:
+                cur = env.get(name, frozenset([self.sym('v:' + name)]))
+                d = 1 if e0[1] == '++' else -1
+                self.store(name, frozenset(v + d for v in cur), env, P.c_text(e0))
+            return
+        for x in e0[1:]:
+            if isinstance(x, tuple):
+                self.scan_expr(x, env)
+            elif isinstance(x, list):
+                for y in x:
+                    if isinstance(y, tuple):
+                        self.scan_expr(y, env)
+
+
+def _walk_c(node):
+    """all expression nodes below a statement / expression of the pC15 C AST"""
+    if isinstance(node, tuple):
+        yield node
+        for x in node[1:]:
+            yield from _walk_c(x)
+    elif isinstance(node, list):
+        for y in node:
+            yield from _walk_c(y)
+
+
+PC_AMOUNT_BAD = '{ Py_ssize_t length = PyList_GET_SIZE(o); if (wraparound & unlikely(i < 0)) i += length - 1; return PyList_GET_ITEM(o, i); }'
+PC_AMOUNT_OK = '{ Py_ssize_t n = (!wraparound) ? i : ((likely(i >= 0)) ? i : i + PyList_GET_SIZE(o)); return PyList_GET_ITEM(o, n); }'
+
+
+def rule_amount(ctx, F):
+    r = Rule('C15-AMOUNT', 'C fast paths: whatever is added to a (negative) index is exactly the length of the indexed container, and every bounds test of an index compares it '
+             'with 0 or that same length - linear forms over IDX and LEN for every assignment that writes the index or a copy of it and every comparison of such a value, '
+             'in every flag-taking helper and every helper that receives the index by address (all preprocessor configurations)', floor=17)
+    todo = dict(F.funcs)
+    called = set()
+    for f in F.funcs.values():
+        called |= {c for c, _, _ in P.c_calls_in_text(f.expanded_body() or '')}
+    for n in sorted(called - set(F.funcs)):
+        for f in P.resolve_c(ctx.cat, n, ('func',)):
+            if f.body and any(t.replace(' ', '') == 'Py_ssize_t*' for t, _ in f.typed_params()):
+                todo[n] = f
+    by_ref = sorted(set(todo) - set(F.funcs))
+    r.info('helpers receiving the index by address: %s' % (', '.join(by_ref) or 'none'))
+    total = 0
+    for n, f in sorted(todo.items()):
+        body = f.expanded_body()
+        adds, probs, limits = [], {}, set()
+        for cfg, text in P.pp_configs(body):
+            sc = AmountScan(n, f.typed_params(), P.parse_c_function_body(text)).run()
+            adds += sc.adds
+            limits |= set(sc.limits)
+            for k, v in sc.problems.items():
+                probs.setdefault(k, '%s [%s]' % (v, cfg))
+        for tgt in sorted({t for t, _ in adds}):
+            total += 1
+            r.inst('%s:%s+=LEN' % (n, tgt), sample='%s: %s' % (n, next(w for t, w in adds if t == tgt)))
+        for lim in sorted(limits):
+            r.inst('%s:limit:%s' % (n, lim), sample='%s: bounds test %s' % (n, lim))
+        if not adds:
+            r.inst('func:' + n, nontrivial=False)
+        for k, msg in sorted(probs.items()):
+            r.violate('%s:%s' % (n, k), f.file, f.line, msg)
+    # bounds-testing accessor macros the fast paths rely on (e.g. __Pyx_PyList_GetItemRef): same obligation for their limit
+    n_macro = 0
+    for n in sorted(called - set(todo)):
+        for f in P.resolve_c(ctx.cat, n, ('macro',)):
+            body = ' '.join((f.body or '').replace('\\\n', ' ').split())
+            if P.VALID_TEST not in body:
+                continue
+            params = f.param_names()
+            try:
+                tree = P.parse_c_function_body('{ return %s; }' % body)
+            except AnalysisError as x:
+                raise AnalysisError('C15-AMOUNT: cannot parse the macro %s: %s' % (n, x))
+            ixp = None
+            for e in _walk_c(tree):
+                if e[0] == 'call' and _callee(e[1]) == P.VALID_TEST and e[2]:
+                    a = P.strip_wrappers(e[2][0])
+                    if a[0] == 'id' and a[1] in params:
+                        ixp = a[1]
+            if ixp is None or not params or params[0] == ixp:
+                raise AnalysisError('C15-AMOUNT: the macro %s tests an index that is not one of its parameters' % n)
+            typed = [('PyObject *', params[0])] + [('Py_ssize_t', ixp)]
+            sc = AmountScan(n, typed, tree).run()
+            n_macro += 1
+            r.inst('macro:%s:%s' % (n, ' '.join(f.decl.conds)[:40]), sample='%s: %s' % (n, sorted(set(sc.limits))))
+            for k, msg in sorted(sc.problems.items()):
+                r.violate('%s:%s' % (n, k), f.file, f.line, msg)
+    if total < 6:
+        raise AnalysisError('C15-AMOUNT: only %d length additions found in the fast paths' % total)
+    typed = [('PyObject *', 'o'), ('Py_ssize_t', 'i'), ('int', 'wraparound'), ('int', 'boundscheck')]
+    bad = AmountScan('pc', typed, P.parse_c_function_body(PC_AMOUNT_BAD)).run()
+    good = AmountScan('pc', typed, P.parse_c_function_body(PC_AMOUNT_OK)).run()
+    r.positive_control(bool(bad.problems) and not good.problems and bool(good.adds), '`i += length - 1` is reported, the ternary copy `i + PyList_GET_SIZE(o)` is accepted')
+    return r
+
+
+# ---------------------------------------------------------------------------------------------- C15-VALID
+# A typed evaluator of C integer expressions (integer promotions, usual arithmetic conversions, conversion on cast) over cexpr ASTs.  Same model as the
+# evaluator of sC32 (LP64); kept here so that this module does not depend on another property's file.
+TNAME = 'sa_ret_t'
+C_NAMED = {'char': ('i', 8, True), 'signed char': ('i', 8, True), 'unsigned char': ('i', 8, False), 'short': ('i', 16, True), 'unsigned short': ('i', 16, False),
+           'int': ('i', 32, True), 'unsigned int': ('i', 32, False), 'unsigned': ('i', 32, False), 'long': ('i', 64, True), 'unsigned long': ('i', 64, False),
+           'long long': ('i', 64, True), 'PY_LONG_LONG': ('i', 64, True), 'unsigned long long': ('i', 64, False), 'Py_ssize_t': ('i', 64, True), 'size_t': ('i', 64, False)}
+SSIZE = ('i', 64, True)
+SSIZE_MAX, SSIZE_MIN = 2 ** 63 - 1, -2 ** 63
+
+
+def conv(val, ty):
+    bits, signed = ty[1], ty[2]
+    val &= (1 << bits) - 1
+    if signed and val >= 1 << (bits - 1):
+        val -= 1 << bits
+    return val
+
+
+def _promote(ty):
+    return ('i', 32, True) if ty[1] < 32 else ty
+
+
+def _common(ta, tb):
+    ta, tb = _promote(ta), _promote(tb)
+    if ta[2] == tb[2]:
+        return ta if ta[1] >= tb[1] else tb
+    u, sg = (ta, tb) if not ta[2] else (tb, ta)
+    return u if u[1] >= sg[1] else sg
+
+
+class _TE:
+    """env: name -> (type, value); ttype: the type the placeholder name TNAME stands for"""
+
+    def __init__(self, env, ttype=None):
+        self.env, self.ttype = env, ttype
+
+    def ctype(self, text):
+        t = ' '.join(text.replace('const', ' ').split())
+        if t == TNAME and self.ttype is not None:
+            return self.ttype
+        if t in C_NAMED:
+            return C_NAMED[t]
+        raise cexpr.EvalError('unmodelled type %r' % text)
+
+    def ev(self, e, subst=None):
+        k = e[0]
+        INT = ('i', 32, True)
+        if k in ('num', 'char'):
+            return (INT if -2 ** 31 <= e[1] < 2 ** 31 else ('i', 64, True)), e[1]
+        if k == 'id':
+            if e[1] in self.env:
+                return self.env[e[1]]
+            raise cexpr.EvalError('free identifier %s' % e[1])
+        if k == 'sizeof':
+            return ('i', 64, False), self.ctype(' '.join(str(e[1]).split()))[1] // 8
+        if k == 'cast':
+            t, v = self.ev(e[2])
+            ty = self.ctype(e[1])
+            return ty, conv(v, ty)
+        if k == 'un':
+            t, v = self.ev(e[2])
+            if e[1] == '!':
+                return INT, int(not v)
+            if e[1] in ('-', '+', '~'):
+                t = _promote(t)
+                return t, conv({'-': -v, '+': v, '~': ~v}[e[1]], t)
+            raise cexpr.EvalError('unary ' + e[1])
+        if k == 'tern':
+            _, c = self.ev(e[1])
+            ta, a = self.ev(e[2])
+            tb, b = self.ev(e[3])
+            t = _common(ta, tb)
+            return t, conv(a if c else b, t)
+        if k == 'call':
+            if e[1] in ('likely', 'unlikely') and len(e[2]) == 1:
+                return self.ev(e[2][0])
+            raise cexpr.EvalError('call of %s' % e[1])
+        if k == 'bin':
+            op = e[1]
+            if op in ('&&', '||'):
+                _, a = self.ev(e[2])
+                if (op == '&&' and not a) or (op == '||' and a):
+                    return INT, int(bool(a))
+                _, b = self.ev(e[3])
+                return INT, int(bool(b))
+            ta, a = self.ev(e[2])
+            tb, b = self.ev(e[3])
+            t = _common(ta, tb)
+            a, b = conv(a, t), conv(b, t)
+            if op in ('==', '!=', '<', '>', '<=', '>='):
+                return INT, int({'==': a == b, '!=': a != b, '<': a < b, '>': a > b, '<=': a <= b, '>=': a >= b}[op])
+            if op in ('+', '-', '*', '&', '|', '^'):
+                return t, conv({'+': a + b, '-': a - b, '*': a * b, '&': a & b, '|': a | b, '^': a ^ b}[op], t)
+            raise cexpr.EvalError('operator ' + op)
+        raise cexpr.EvalError('node ' + k)
+
+
+def _run_c_function(body, env, ttype=None):
+    """evaluate a small straight-line/if C function body (pC15 AST) with C conversion rules -> returned value"""
+    te = _TE(env, ttype)
+
+    def val(e):
+        try:
+            return te.ev(cexpr.parse(P.c_text(e)))
+        except (cexpr.EvalError, cexpr.ParseError) as x:
+            raise AnalysisError('C15-VALID: cannot evaluate `%s`: %s' % (P.c_text(e), x))
+
+    def run(s):
+        k = s[0]
+        if k == 'block':
+            for x in s[1]:
+                r = run(x)
+                if r is not None:
+                    return r
+            return None
+        if k == 'return':
+            return val(s[1])
+        if k == 'if':
+            if val(s[1])[1]:
+                return run(s[2])
+            return run(s[3]) if s[3] is not None else None
+        if k == 'decl':
+            for name, init, typ in s[1]:
+                t = ' '.join(typ.replace('const', ' ').split())
+                if t not in C_NAMED:
+                    raise AnalysisError('C15-VALID: local of type %r' % typ)
+                env[name] = (C_NAMED[t], conv(val(init)[1], C_NAMED[t]) if init is not None else 0)
+            return None
+        if k == 'expr':
+            e = s[1]
+            if e[0] == 'assign' and e[1] == '=' and e[2][0] == 'id' and e[2][1] in env:
+                t = env[e[2][1]][0]
+                env[e[2][1]] = (t, conv(val(e[3])[1], t))
+                return None
+            if e[0] == 'call' and _callee(e[1]) in P.NOOPS:
+                return None
+        raise AnalysisError('C15-VALID: statement kind %r is outside the model' % (k,))
+    return run(body)
+
+
+def valid_index_table(body):
+    """[(i, limit, got, want)] disagreements of the bounds predicate with 0 <= i < limit on the boundary classes"""
+    bad, n = [], 0
+    for limit in (0, 1, 2, 7, SSIZE_MAX):
+        cand = {SSIZE_MIN, SSIZE_MIN + 1, -limit - 1, -limit, -2, -1, 0, 1, limit - 2, limit - 1, limit, limit + 1, SSIZE_MAX - 1, SSIZE_MAX}
+        for i in sorted(c for c in cand if SSIZE_MIN <= c <= SSIZE_MAX):
+            n += 1
+            got = _run_c_function(body, {'i': (SSIZE, i), 'limit': (SSIZE, limit)})
+            if got is None:
+                raise AnalysisError('C15-VALID: __Pyx_is_valid_index does not return a value')
+            if bool(got[1]) != (0 <= i < limit):
+                bad.append((i, limit, bool(got[1])))
+    return bad, n
+
+
+INT_MODEL = [('signed char', 8, True), ('unsigned char', 8, False), ('short', 16, True), ('unsigned short', 16, False), ('int', 32, True), ('unsigned int', 32, False),
+             ('Py_ssize_t / long', 64, True), ('size_t / unsigned long', 64, False), ('__int128', 128, True), ('unsigned __int128', 128, False)]
+
+
+def fits_table(params, body_text):
+    """disagreements of __Pyx_fits_Py_ssize_t(v, type, is_signed) with PY_SSIZE_T_MIN <= v <= PY_SSIZE_T_MAX over every integer width/signedness"""
+    if len(params) != 3:
+        raise AnalysisError('C15-VALID: __Pyx_fits_Py_ssize_t no longer takes (v, type, is_signed)')
+    v, tname, sgn = params
+    text = re.sub(r'\b%s\b' % re.escape(tname), TNAME, ' '.join(body_text.replace('\\\n', ' ').split()))
+    try:
+        e = cexpr.parse(text)
+    except cexpr.ParseError as x:
+        raise AnalysisError('C15-VALID: cannot parse the body of __Pyx_fits_Py_ssize_t: %s' % x)
+    bad, n = [], 0
+    for label, bits, signed in INT_MODEL:
+        ty = ('i', bits, signed)
+        lo, hi = (-(1 << (bits - 1)), (1 << (bits - 1)) - 1) if signed else (0, (1 << bits) - 1)
+        cand = {lo, lo + 1, SSIZE_MIN - 1, SSIZE_MIN, SSIZE_MIN + 1, -1, 0, 1, SSIZE_MAX - 1, SSIZE_MAX, SSIZE_MAX + 1, hi - 1, hi}
+        for val in sorted(c for c in cand if lo <= c <= hi):
+            n += 1
+            env = {v: (ty, val), sgn: (('i', 32, True), int(signed)), 'PY_SSIZE_T_MAX': (SSIZE, SSIZE_MAX), 'PY_SSIZE_T_MIN': (SSIZE, SSIZE_MIN)}
+            try:
+                got = _TE(env, ty).ev(e)
+            except cexpr.EvalError as x:
+                raise AnalysisError('C15-VALID: cannot evaluate __Pyx_fits_Py_ssize_t: %s' % x)
+            if bool(got[1]) != (SSIZE_MIN <= val <= SSIZE_MAX):
+                bad.append((label, val, bool(got[1])))
+    return bad, n
+
+
+def rule_valid(ctx):
+    r = Rule('C15-VALID', 'the two predicates every integer-index fast path relies on are exact: __Pyx_is_valid_index(i, limit) <=> 0 <= i < limit on the boundary classes of i '
+             'relative to the limit, and __Pyx_fits_Py_ssize_t(v, type, is_signed) <=> PY_SSIZE_T_MIN <= v <= PY_SSIZE_T_MAX for every integer width and signedness '
+             '(evaluated with C conversion rules)', floor=100)
+    fs = P.resolve_c(ctx.cat, P.VALID_TEST, ('func',))
+    if len(fs) != 1 or not fs[0].body:
+        raise AnalysisError('C15-VALID: %s is not a single function with a body' % P.VALID_TEST)
+    f = fs[0]
+    if [t.replace(' ', '') for t, _ in f.typed_params()] != ['Py_ssize_t', 'Py_ssize_t']:
+        raise AnalysisError('C15-VALID: %s no longer takes (Py_ssize_t, Py_ssize_t)' % P.VALID_TEST)
+    names = [n for _, n in f.typed_params()]
+    body = P.parse_c_function_body(re.sub(r'\b%s\b' % names[0], 'i', re.sub(r'\b%s\b' % names[1], 'limit', f.body)) if names != ['i', 'limit'] else f.body)
+    bad, n = valid_index_table(body)
+    for k in range(n):
+        r.inst('valid#%d' % k, nontrivial=k < 40)
+    seen = set()
+    for i, limit, got in bad:
+        cls = 'negative' if i < 0 else 'at-limit' if i == limit else 'above-limit' if i > limit else 'inside'
+        if cls in seen:
+            continue
+        seen.add(cls)
+        r.violate('%s:%s' % (P.VALID_TEST, cls), f.file, f.line, '%s(%d, %d) is %s but 0 <= i < limit is %s: %s' % (
+            P.VALID_TEST, i, limit, got, not got, 'an out-of-range index passes the bounds test of every fast path (out-of-bounds access instead of IndexError)' if got
+            else 'valid indices are rejected'))
+    ms = P.resolve_c(ctx.cat, '__Pyx_fits_Py_ssize_t', ('macro',))
+    if len(ms) != 1:
+        raise AnalysisError('C15-VALID: __Pyx_fits_Py_ssize_t is not a single macro')
+    m = ms[0]
+    bad, n2 = fits_table(m.param_names(), m.body)
+    for k in range(n2):
+        r.inst('fits#%d' % k, nontrivial=k < 40)
+    seen = set()
+    for label, val, got in bad:
+        cls = '%s:%s' % (label.split(' /')[0], 'accepts-out-of-range' if got else 'rejects-in-range')
+        if cls in seen:
+            continue
+        seen.add(cls)
+        r.violate('__Pyx_fits_Py_ssize_t:%s' % cls, m.file, m.line, '__Pyx_fits_Py_ssize_t(%d, %s, %d) is %s: %s' % (
+            val, label, int(dict((l, s) for l, b, s in INT_MODEL)[label]), got,
+            'the index is cast to Py_ssize_t although it does not fit, so it changes value (wraps to a negative / small index) instead of raising IndexError' if got else
+            'an index inside the Py_ssize_t range is sent to the error / generic path'))
+    pc_bad, _ = valid_index_table(P.parse_c_function_body('{ return (size_t) i <= (size_t) limit; }'))
+    pc_ok, _ = valid_index_table(P.parse_c_function_body('{ return i >= 0 && i < limit; }'))
+    r.positive_control(bool(pc_bad) and not pc_ok, '`<=` accepts i == limit; the two-sided signed test is accepted')
+    return r
+
+
+# ---------------------------------------------------------------------------------------------- C15-CLAMP
+def _rename(form, old, new):
+    return Lin(form.c, {(new if s == old else s): v for s, v in form.k.items()})
+
+
+def _classes(L, sym):
+    from .slicenorm import classes
+    out = []
+    for label, form, bounds in classes(L):
+        out.append((label, _rename(form, 't', sym), bounds))
+    return out
+
+
+def _adj(ci, v, Lf):
+    """PySlice_AdjustIndices for step +1 on class index ci (see slicenorm.classes)"""
+    if ci in (0, 1):
+        return Lin(0)
+    if ci in (2, 3, 4):
+        return v + Lf
+    if ci in (5, 6, 7):
+        return v
+    return Lf
+
+
+class Fork(Exception):
+    pass
+
+
+class ClampEval:
+    """Symbolic execution of a slice helper on linear forms.  State: env var -> Lin | ('opaque', text).  A comparison that the class region
+    does not decide is forked only when it relates the start side to the stop side (the emptiness test); anything else is an analysis error."""
+
+    def __init__(self, fname, region, env, container, start_syms, stop_syms, Lf=None):
+        self.fname, self.r, self.container = fname, region, container
+        self.Lf = Lf if Lf is not None else Lin(0, {'L': 1})
+        self.start_syms, self.stop_syms = start_syms, stop_syms
+        self.outcomes = []        # (kind, env, decided_only, return expr)
+
+    def val(self, e, env):
+        e = P.strip_wrappers(e)
+        k = e[0]
+        if k == 'num':
+            return Lin(e[1])
+        if k == 'id':
+            return env.get(e[1], ('opaque', e[1]))
+        if k == 'un' and e[1] == '*' and e[2][0] == 'id':
+            return env.get('*' + e[2][1], ('opaque', '*' + e[2][1]))
+        if k == 'un' and e[1] == '-':
+            v = self.val(e[2], env)
+            return -v if isinstance(v, Lin) else ('opaque', P.c_text(e))
+        if k == 'call':
+            name = _callee(e[1])
+            if name and SIZE_CALL.search(name) and e[2] and P.strip_wrappers(e[2][0]) == ('id', self.container):
+                return self.Lf
+            return ('opaque', P.c_text(e))
+        if k == 'bin' and e[1] in ('+', '-'):
+            a, b = self.val(e[2], env), self.val(e[3], env)
+            if isinstance(a, Lin) and isinstance(b, Lin):
+                return a + b if e[1] == '+' else a - b
+            return ('opaque', P.c_text(e))
+        if k == 'bin' and e[1] == '*':
+            a, b = self.val(e[2], env), self.val(e[3], env)
+            if isinstance(a, Lin) and isinstance(b, Lin) and (a.const or b.const):
+                return b.scale(a.c) if a.const else a.scale(b.c)
+            return ('opaque', P.c_text(e))
+        if k == 'tern':
+            outs = []
+            for t, env2 in self.truth(e[1], env):
+                outs.append(self.val(e[2] if t else e[3], env2))
+            if len(outs) == 1:
+                return outs[0]
+            raise AnalysisError('C15-CLAMP: %s: undecided conditional expression %s' % (self.fname, P.c_text(e)))
+        if k == 'cast':
+            return self.val(e[2], env)
+        return ('opaque', P.c_text(e))
+
+    def sides(self, f):
+        syms = set(f.k)
+        return bool(syms & self.start_syms), bool(syms & self.stop_syms)
+
+    def truth(self, e, env):
+        """[(bool, env)]; forks only for start-vs-stop comparisons"""
+        e = P.strip_wrappers(e)
+        k = e[0]
+        if k == 'un' and e[1] == '!':
+            return [(not t, v) for t, v in self.truth(e[2], env)]
+        if k == 'bin' and e[1] in ('&&', '&'):
+            out = []
+            for t, v in self.truth(e[2], env):
+                out += self.truth(e[3], v) if t else [(False, v)]
+            return out
+        if k == 'bin' and e[1] in ('||', '|'):
+            out = []
+            for t, v in self.truth(e[2], env):
+                out += [(True, v)] if t else self.truth(e[3], v)
+            return out
+        if k == 'bin' and e[1] in ('<', '<=', '>', '>=', '==', '!='):
+            a, b = self.val(e[2], env), self.val(e[3], env)
+            if not (isinstance(a, Lin) and isinstance(b, Lin)):
+                return [('opaque', env)]
+            d = a - b
+            res = self.r.decide(e[1], d)
+            if res is not None:
+                return [(res, env)]
+            s1, s2 = self.sides(d)
+            if s1 and s2:
+                env_t, env_f = dict(env), dict(env)
+                env_t['#forked'] = env_f['#forked'] = True
+                return [(True, env_t), (False, env_f)]
+            raise AnalysisError('C15-CLAMP: %s: the comparison %s is not decided on the class %s' % (self.fname, P.c_text(e), self.r.box))
+        v = self.val(e, env)
+        if isinstance(v, Lin):
+            res = self.r.decide('!=', v)
+            if res is None:
+                raise AnalysisError('C15-CLAMP: %s: truth of %s is not decided' % (self.fname, P.c_text(e)))
+            return [(res, env)]
+        return [('opaque', env)]
+
+    def is_error_exit(self, s):
+        body = s[1] if s[0] == 'block' else [s]
+        if len(body) != 1 or body[0][0] not in ('return', 'goto'):
+            return False
+        if body[0][0] == 'goto':
+            return True
+        e = body[0][1]
+        if e is None:
+            return True
+        e = P.strip_wrappers(e)
+        return e in (('id', 'NULL'), ('num', 0)) or (e[0] == 'un' and e[1] == '-' and e[2] == ('num', 1))
+
+    def run(self, s, envs):
+        """-> envs that fall through"""
+        k = s[0]
+        if k == 'block':
+            cur = envs
+            for x in s[1]:
+                if not cur:
+                    break
+                cur = self.run(x, cur)
+            return cur
+        out = []
+        if k == 'if':
+            for env in envs:
+                for t, env2 in self.truth(s[1], env):
+                    if t == 'opaque':
+                        # a run-time status test: only an error exit may hang on it
+                        if self.is_error_exit(s[2]) and s[3] is None:
+                            out.append(env2)
+                            continue
+                        raise AnalysisError('C15-CLAMP: %s: the test %s depends on a value outside the model' % (self.fname, P.c_text(s[1])))
+                    if t:
+                        out += self.run(s[2], [dict(env2)])
+                    elif s[3] is not None:
+                        out += self.run(s[3], [dict(env2)])
+                    else:
+                        out.append(env2)
+            return out
+        if k == 'decl':
+            for env in envs:
+                for name, init, typ in s[1]:
+                    env[name] = self.val(init, env) if init is not None else ('opaque', name)
+            return envs
+        if k == 'expr':
+            for env in envs:
+                self.effect(s[1], env)
+            return envs
+        if k == 'return':
+            for env in envs:
+                self.outcomes.append(('return', env, s[1]))
+            return []
+        if k in ('goto', 'label'):
+            raise AnalysisError('C15-CLAMP: %s uses goto' % self.fname)
+        raise AnalysisError('C15-CLAMP: %s: statement kind %s' % (self.fname, k))
+
+    def effect(self, e, env):
+        e = P.strip_wrappers(e)
+        if e[0] == 'comma':
+            self.effect(e[1], env)
+            self.effect(e[2], env)
+            return
+        if e[0] == 'assign':
+            l = P.strip_wrappers(e[2])
+            name = l[1] if l[0] == 'id' else ('*' + l[2][1]) if (l[0] == 'un' and l[1] == '*' and l[2][0] == 'id') else None
+            if name is None:
+                return
+            v = self.val(e[3], env)
+            if e[1] == '=':
+                env[name] = v
+            elif e[1] in ('+=', '-='):
+                cur = env.get(name, ('opaque', name))
+                if isinstance(cur, Lin) and isinstance(v, Lin):
+                    env[name] = cur + v if e[1] == '+=' else cur - v
+                else:
+                    env[name] = ('opaque', P.c_text(e))
+            else:
+                env[name] = ('opaque', P.c_text(e))
+            return
+        if e[0] in ('un', 'post') and e[1] in ('++', '--') and e[2][0] == 'id':
+            cur = env.get(e[2][1])
+            env[e[2][1]] = cur + (1 if e[1] == '++' else -1) if isinstance(cur, Lin) else ('opaque', P.c_text(e))
+
+
+def clamp_problems(fname, typed_params, body):
+    """Check one slice helper against PySlice_AdjustIndices (step 1).  -> ({key: message}, cases)
+    Interface: Py_ssize_t parameters whose names contain start / stop (or pointers to them, with an optional length pointer)."""
+    def role(n):
+        n = (n or '').lower()
+        return 'start' if 'start' in n else 'stop' if 'stop' in n else 'length' if ('length' in n or n.lstrip('_') in ('len', 'size')) else None
+    ptrs = {role(n): n for t, n in typed_params if t.replace(' ', '') == 'Py_ssize_t*' and role(n)}
+    vals = {role(n): n for t, n in typed_params if t.replace(' ', '') == 'Py_ssize_t' and role(n)}
+    container = next((n for t, n in typed_params if 'PyObject' in t and t.count('*') == 1), None)
+    by_ptr = 'start' in ptrs and 'stop' in ptrs
+    if not by_ptr and not ('start' in vals and 'stop' in vals):
+        raise AnalysisError('C15-CLAMP: %s has no start/stop parameters' % fname)
+    problems, cases = {}, 0
+    ids = P.c_ids(body)
+
+    def bad(key, msg):
+        problems.setdefault(key, msg)
+
+    for L in (None, 0, 1, 2, 3):
+        Lf = Lin(0, {'L': 1}) if L is None else Lin(L)
+        lbox = (4, INF) if L is None else (L, L)
+        for ci, (sl, sform, sb) in enumerate(_classes(L, 's')):
+            for cj, (tl, tform, tb) in enumerate(_classes(L, 't')):
+                box = {'L': lbox}
+                skip = False
+                for sym, bnd in (('s', sb), ('t', tb)):
+                    if bnd is None:
+                        continue
+                    lo, hi = bnd
+                    if hi is not INF:
+                        mx = Region({'L': lbox}).extreme(lin(hi) - lin(lo), True)
+                        if mx is not INF and mx < 0:
+                            skip = True
+                    box[sym] = bnd
+                if skip:
+                    continue
+                reg = Region(box)
+                # the reference, recomputed from the value for constant lengths where classes coincide
+                def ref(form):
+                    if reg.decide('<', form) is True:
+                        w = form + Lf
+                        d = reg.decide('<', w)
+                        return Lin(0) if d is True else (w if d is False else None)
+                    if reg.decide('<', form) is False:
+                        ge = reg.decide('>=', form - Lf)
+                        return Lf if ge is True else (form if ge is False else None)
+                    return None
+                rs, rt = ref(sform), ref(tform)
+                if rs is None or rt is None:
+                    continue
+                cases += 1
+                case = 'start in %s, stop in %s, length %s' % (sl, tl, 'symbolic (>= 4)' if L is None else L)
+                env = {}
+                if by_ptr:
+                    env['*' + ptrs['start']], env['*' + ptrs['stop']] = sform, tform
+                    if 'length' in ptrs:
+                        env['*' + ptrs['length']] = Lf
+                else:
+                    env[vals['start']], env[vals['stop']] = sform, tform
+                    if 'length' in vals:
+                        env[vals['length']] = Lf
+                ev = ClampEval(fname, reg, env, container, {'s'}, {'t'}, Lf)
+                for e2 in ev.run(body, [env]):
+                    ev.outcomes.append(('end', e2, None))
+                empty_ref = reg.decide('<=', rt - rs)          # True: the Python slice is certainly empty
+                for kind, e2, rexpr in ev.outcomes:
+                    if by_ptr:
+                        s2, t2 = e2.get('*' + ptrs['start']), e2.get('*' + ptrs['stop'])
+                        uses = True
+                    else:
+                        s2, t2 = e2.get(vals['start']), e2.get(vals['stop'])
+                        rids = P.c_ids(rexpr) if rexpr is not None else set()
+                        uses = bool(rids & {vals['start'], vals['stop']})
+                    if kind == 'return' and not uses:
+                        whole = rexpr is not None and container in P.c_ids(rexpr)
+                        if whole:
+                            if not (rs == Lin(0) and rt == Lf):
+                                bad('identity', '%s returns the whole object for %s, where Python gives x[%r:%r]' % (fname, case, rs, rt))
+                        elif empty_ref is False and not e2.get('#forked'):
+                            bad('empty', '%s returns a constant (empty) result for %s although x[%r:%r] is not empty' % (fname, case, rs, rt))
+                        continue
+                    # the normalised bounds are used
+                    if not (isinstance(s2, Lin) and isinstance(t2, Lin)):
+                        raise AnalysisError('C15-CLAMP: %s: the bounds are not linear forms at the point of use (%s)' % (fname, case))
+                    if empty_ref is True and not by_ptr and not e2.get('#forked'):
+                        bad('no-empty-guard', '%s builds a result from start=%r, stop=%r for %s although the Python slice is empty (no `stop <= start` test on this path)' % (fname, s2, t2, case))
+                        continue
+                    ok_s = s2 == rs or (rs == Lf and reg.decide('>=', s2 - Lf) is True)
+                    ok_t = t2 == rt or (rt == Lin(0) and reg.decide('<=', t2) is True)
+                    if not ok_s:
+                        bad('start:%s' % sl, '%s normalises start to %r for %s; PySlice_AdjustIndices gives %r' % (fname, s2, case, rs))
+                    if not ok_t:
+                        bad('stop:%s' % tl, '%s normalises stop to %r for %s; PySlice_AdjustIndices gives %r' % (fname, t2, case, rt))
+                    if by_ptr and 'length' in ptrs:
+                        l2 = e2.get('*' + ptrs['length'])
+                        if not (isinstance(l2, Lin) and l2 == t2 - s2):
+                            bad('length', '%s stores %r as the new length instead of stop - start (%s)' % (fname, l2, case))
+    return problems, cases
+
+
+PC_CLAMP_BAD = '''{
+    Py_ssize_t length = PyList_GET_SIZE(src);
+    if (start < 0) { start += length; }
+    if (stop < 0) stop += length; else if (stop > length) stop = length;
+    if (stop <= start) return PyList_New(0);
+    return make(src, start, stop - start);
+}'''
+PC_CLAMP_OK = '''{
+    Py_ssize_t length = PyList_GET_SIZE(src);
+    if (start < 0) { start = (start + length < 0) ? 0 : (start + length); }
+    if (stop < 0) stop += length; else if (stop >= length) stop = length;
+    if (start >= stop) return PyList_New(0);
+    return make(src, start, stop - start);
+}'''
+
+
+def clamp_functions(ctx, emitted):
+    """catalogue functions reachable from the helpers SliceIndexNode emits that assign their start/stop bounds"""
+    out, seen, todo = {}, set(), [(n, 0) for n in sorted(emitted)]
+    while todo:
+        n, depth = todo.pop()
+        if n in seen or depth > 3:
+            continue
+        seen.add(n)
+        for f in P.resolve_c(ctx.cat, n, ('func',)):
+            if not f.body:
+                continue
+            try:
+                body = f.expanded_body()
+            except AnalysisError:
+                continue            # a template the mini expander cannot instantiate without a context (SliceObject: decided by C15-SLICEOBJ)
+            names = [(x or '').lower() for x in f.param_names()]
+            if any('start' in x for x in names) and any('stop' in x for x in names):
+                if re.search(r'(?<![\w>.])\*?\s*_?start\s*(\+=|=(?!=))', strip_c_comments(body)):
+                    out[n] = f
+            for c, _, _ in P.c_calls_in_text(body):
+                todo.append((c, depth + 1))
+    return out
+
+
+def rule_clamp(ctx, emitted):
+    r = Rule('C15-CLAMP', 'the C slice helpers behind x[a:b] on str / list / tuple normalise start and stop like PySlice_AdjustIndices (step 1): symbolic execution on linear forms '
+             'for every pair of bound classes relative to the length (symbolic length and 0..3), including the emptiness test, the whole-object shortcut and the stored length', floor=2000)
+    fns = clamp_functions(ctx, emitted)
+    r.info('slice helpers that normalise bounds: %s' % ', '.join(sorted(fns)))
+    if len(fns) < 2:
+        raise AnalysisError('C15-CLAMP: expected the unicode and the list/tuple slice helper, found %s' % sorted(fns))
+    for n, f in sorted(fns.items()):
+        body = f.expanded_body()
+        probs, total = {}, 0
+        for cfg, text in P.pp_configs(body):
+            p, cases = clamp_problems(n, f.typed_params(), P.parse_c_function_body(text))
+            total += cases
+            for k, v in p.items():
+                probs.setdefault(k, v)
+        for i in range(total):
+            r.inst('%s#%d' % (n, i), nontrivial=i < 30)
+        r.samples.append('%s: %d class pairs' % (n, total))
+        for k, msg in sorted(probs.items()):
+            r.violate('%s:%s' % (n, k), f.file, f.line, msg)
+    # callers of a helper that normalises through pointers must build their result from the normalised start and the new length
+    for n, f in sorted(fns.items()):
+        roles = {}
+        for i, (t, pn) in enumerate(f.typed_params()):
+            if t.replace(' ', '') == 'Py_ssize_t*':
+                low = (pn or '').lower()
+                roles[i] = 'start' if 'start' in low else 'stop' if 'stop' in low else 'length' if ('len' in low or 'size' in low) else None
+        if not roles:
+            continue
+        ncall = 0
+        for cname, ds in sorted(ctx.cat.decls.items()):
+            for d in ds:
+                if d.kind != 'func' or not d.body or n + '(' not in d.body.replace(' ', '') or cname == n:
+                    continue
+                for cf in P.resolve_c(ctx.cat, cname, ('func',)):
+                    try:
+                        cbody = cf.expanded_body()
+                    except AnalysisError:
+                        continue
+                    for cfg, text in P.pp_configs(cbody):
+                        try:
+                            tree = P.parse_c_function_body(text)
+                        except AnalysisError:
+                            continue
+                        stmts = list(P.c_walk_stmts(tree))
+                        for si, st in enumerate(stmts):
+                            calls = [e for e in _walk_c(st) if e[0] == 'call' and _callee(e[1]) == n] if st[0] in ('expr', 'decl', 'return') else []
+                            for call in calls:
+                                outs = {}
+                                for i, a in enumerate(call[2]):
+                                    a = P.strip_wrappers(a)
+                                    if roles.get(i) and a[0] == 'un' and a[1] == '&' and a[2][0] == 'id':
+                                        outs[roles[i]] = a[2][1]
+                                later = set()
+                                for st2 in stmts[si + 1:]:
+                                    if st2[0] in ('expr', 'return', 'decl', 'if'):
+                                        later |= P.c_ids(st2[1] if st2[0] != 'decl' else ('x', [i for _, i, _ in st2[1] if i is not None]))
+                                ncall += 1
+                                key = '%s:uses:%s' % (cname, n)
+                                r.inst(key, sample='%s reads %s after %s(...)' % (cname, sorted(v for v in outs.values() if v in later), n))
+                                for role in ('start', 'length'):
+                                    if role in outs and outs[role] not in later:
+                                        r.violate('%s:%s-unused' % (key, role), cf.file, cf.line,
+                                                  '%s calls %s(&%s, ...) but never reads the normalised %s afterwards: the result is built from %s' % (
+                                                      cname, n, outs[role], role, 'the beginning of the sequence' if role == 'start' else 'another extent'))
+                        break
+        if not ncall:
+            raise AnalysisError('C15-CLAMP: no caller of %s found' % n)
+    typed = [('PyObject *', 'src'), ('Py_ssize_t', 'start'), ('Py_ssize_t', 'stop')]
+    pb, _ = clamp_problems('pc', typed, P.parse_c_function_body(PC_CLAMP_BAD))
+    pk, _ = clamp_problems('pc', typed, P.parse_c_function_body(PC_CLAMP_OK))
+    r.positive_control(any(k.startswith('start:') for k in pb) and not pk, 'a helper that does not clamp start below -len is reported; the ternary / `>=` spelling is accepted')
+    return r
+
+
+# ---------------------------------------------------------------------------------------------- C15-SLICEOBJ
+def _role(name):
+    n = (name or '').lower()
+    hits = [r for r in ('start', 'stop') if r in n]
+    return hits[0] if len(hits) == 1 else None
+
+
+def sliceobj_problems(fname, body):
+    """role agreement inside the helper that builds a slice object from C / Python bounds: an assignment to a <start|stop> variable reads only
+    variables of the same bound and stands only under tests of flags / pointers of the same bound; PySlice_New receives (start, stop, ...)."""
+    problems, insts = {}, []
+
+    def expr_roles(e):
+        return {(_role(i), i) for i in P.c_ids(e) if _role(i)}
+
+    def visit_expr(e, guards):
+        if not isinstance(e, tuple):
+            return
+        if e[0] == 'assign':
+            tgt = P.strip_wrappers(e[2])
+            if tgt[0] == 'id' and _role(tgt[1]):
+                want = _role(tgt[1])
+                insts.append('%s <- %s' % (tgt[1], P.c_text(e[3])[:50]))
+                rhs = e[3]
+                while rhs[0] == 'assign':          # owned_x = py_x = value
+                    rhs = rhs[3]
+                for ro, ident in sorted(expr_roles(rhs)):
+                    if ro != want:
+                        problems.setdefault('%s<-%s' % (tgt[1], ident), '%s assigns %s from %s: the %s bound is built from the %s value' % (fname, tgt[1], ident, want, ro))
+                for g in guards:
+                    for ro, ident in sorted(expr_roles(g)):
+                        if ro != want:
+                            problems.setdefault('%s:under:%s' % (tgt[1], ident), '%s assigns %s under a test of %s: the presence of the %s bound decides how the %s bound is built'
+                                                % (fname, tgt[1], ident, ro, want))
+        if e[0] == 'call' and _callee(e[1]) == 'PySlice_New':
+            roles = [next(iter({ro for ro, _ in expr_roles(a)}), None) if len({ro for ro, _ in expr_roles(a)}) == 1 else None for a in e[2]]
+            insts.append('PySlice_New(%s)' % ', '.join(P.c_text(a) for a in e[2]))
+            if len(roles) >= 2 and (roles[0], roles[1]) != ('start', 'stop'):
+                problems.setdefault('PySlice_New:order', '%s calls PySlice_New(%s): the first argument must be the start and the second the stop object'
+                                    % (fname, ', '.join(P.c_text(a) for a in e[2])))
+        for x in e[1:]:
+            if isinstance(x, tuple):
+                visit_expr(x, guards)
+            elif isinstance(x, list):
+                for y in x:
+                    visit_expr(y, guards)
+
+    def visit(s, guards):
+        k = s[0]
+        if k == 'block':
+            for x in s[1]:
+                visit(x, guards)
+        elif k == 'if':
+            visit_expr(s[1], guards)
+            visit(s[2], guards + [s[1]])
+            if s[3] is not None:
+                visit(s[3], guards + [s[1]])
+        elif k == 'decl':
+            for name, init, typ in s[1]:
+                if init is not None:
+                    visit_expr(('assign', '=', ('id', name), init), guards)
+        elif k in ('expr', 'return') and s[1] is not None:
+            visit_expr(s[1], guards)
+    visit(body, [])
+    return problems, insts
+
+
+def rule_sliceobj(ctx):
+    r = Rule('C15-SLICEOBJ', '__Pyx_PyObject_{Get,Set}Slice: every start/stop object is built from the C value, flag and pointer of the same bound, and PySlice_New receives '
+             '(start, stop): role agreement by name over assignments and their guards (both template instantiations, all preprocessor configurations)', floor=18)
+    sec = ctx.cat.files.get('ObjectHandling.c', {}).get('SliceObject')
+    if not sec:
+        raise AnalysisError('C15-SLICEOBJ: utility section ObjectHandling.c::SliceObject vanished')
+    impl = sec.get('impl') or next(iter(sec.values()))
+    n_py = 0
+    for access in ('Get', 'Set'):
+        text = strip_c_comments(P.tempita_expand(impl.raw, {'access': access}))
+        m = re.search(r'\b(__Pyx_PyObject_\w*Slice)\s*\(', text)
+        if not m:
+            raise AnalysisError('C15-SLICEOBJ: no slice function in the %s instantiation' % access)
+        brace = text.find('{', m.end())
+        end = match_brace(text, brace)
+        body_text = text[brace:end + 1]
+        fname = m.group(1)
+        probs, insts = {}, []
+        for cfg, t in P.pp_configs(body_text):
+            p, i = sliceobj_problems(fname, P.parse_c_function_body(t))
+            probs.update({k: v for k, v in p.items() if k not in probs})
+            insts = i if len(i) > len(insts) else insts
+        for i in insts:
+            r.inst('%s:%s' % (fname, i))
+        n_py += sum(1 for i in insts if i.startswith('PySlice_New'))
+        for k, msg in sorted(probs.items()):
+            r.violate('%s:%s' % (fname, k), 'Cython/Utility/ObjectHandling.c', impl.line, msg)
+    if n_py < 2:
+        raise AnalysisError('C15-SLICEOBJ: PySlice_New call not found in both instantiations')
+    pc, _ = sliceobj_problems('pc', P.parse_c_function_body('{ if (has_cstart) { py_stop = PyLong_FromSsize_t(cstop); } py_slice = PySlice_New(py_start, py_stop, Py_None); }'))
+    r.positive_control(any('under' in k for k in pc), 'a stop object built under the start flag')
+    return r
+
+
+def match_brace(text, i):
+    depth = 0
+    for j in range(i, len(text)):
+        if text[j] == '{':
+            depth += 1
+        elif text[j] == '}':
+            depth -= 1
+            if depth == 0:
+                return j
+    raise AnalysisError('unbalanced braces')
+
+
+# ---------------------------------------------------------------------------------------------- C15-KIND
+KIND_OF_TEST = {'is_pylist_type': 'List', 'is_pytuple_type': 'Tuple', 'is_pybytearray_type': 'ByteArray', 'is_pybytes_type': 'Bytes', 'is_pystr_type': 'Unicode',
+                'is_pyanydict_type': 'Dict', 'is_pydict_type': 'Dict'}
+KIND_WORDS = ('ByteArray', 'Bytes', 'List', 'Tuple', 'Unicode', 'Dict')
+
+
+def _kinds_in_text(text):
+    out = set()
+    for ident in re.findall(r'[A-Za-z_]\w*', text):
+        rest = ident
+        for w in KIND_WORDS:          # 'ByteArray' is looked for before 'Bytes'
+            if w in rest:
+                out.add(w)
+                rest = rest.replace(w, '')
+    return out
+
+
+def _receiver_text(recv, fn):
+    """source text of the object whose type is tested, through one local alias (`bt = self.base.type`)"""
+    if isinstance(recv, ast.Name) and fn is not None:
+        for n in ast.walk(fn):
+            if isinstance(n, ast.Assign) and any(isinstance(t, ast.Name) and t.id == recv.id for t in n.targets):
+                return ast.unparse(n.value)
+    return ast.unparse(recv)
+
+
+def _excluded_kinds(tests, fn=None):
+    """kinds ruled out by a failed simple test (`else` branch of `if base_type.is_pylist_type:`)"""
+    out = set()
+    for t, pol in _unnegated(tests):
+        if not pol and isinstance(t, ast.Attribute) and t.attr in KIND_OF_TEST and 'index' not in _receiver_text(t.value, fn):
+            out.add(KIND_OF_TEST[t.attr])
+    return out
+
+
+def _unnegated(tests):
+    for t, pol in tests:
+        while isinstance(t, ast.UnaryOp) and isinstance(t.op, ast.Not):
+            t, pol = t.operand, not pol
+        yield t, pol
+
+
+def _guard_kinds(tests, fn=None):
+    """kinds asserted positively by a list of (test, polarity)"""
+    out = set()
+    for t, pol in _unnegated(tests):
+        if not pol:
+            continue
+        parts = [t]
+        while parts:
+            x = parts.pop()
+            if isinstance(x, ast.BoolOp) and isinstance(x.op, ast.And):
+                parts += x.values
+            elif isinstance(x, ast.Attribute) and x.attr in KIND_OF_TEST and 'index' not in _receiver_text(x.value, fn):
+                out.add(KIND_OF_TEST[x.attr])       # a test of the indexed object's type (not of the index type)
+    return out
+
+
+def kind_sites(fn):
+    """(constant node, guard tests) for every string constant of fn that names a type-specific C helper, with the if/elif/conditional-expression tests it stands under"""
+    out = []
+
+    def rec_expr(e, tests, stmt_tests):
+        if isinstance(e, ast.IfExp):
+            rec_expr(e.body, tests + [(e.test, True)], stmt_tests)
+            rec_expr(e.orelse, tests + [(e.test, False)], stmt_tests)
+            return
+        if isinstance(e, ast.Constant) and isinstance(e.value, str):
+            out.append((e, stmt_tests + tests))
+            return
+        for c in ast.iter_child_nodes(e):
+            if isinstance(c, ast.expr):
+                rec_expr(c, tests, stmt_tests)
+
+    def rec_stmts(stmts, tests):
+        for s in stmts:
+            if isinstance(s, ast.If):
+                rec_expr(s.test, [], tests)
+                rec_stmts(s.body, tests + [(s.test, True)])
+                rec_stmts(s.orelse, tests + [(s.test, False)])
+                continue
+            if isinstance(s, (ast.FunctionDef, ast.AsyncFunctionDef, ast.ClassDef)):
+                continue
+            for field in ('body', 'orelse', 'finalbody'):
+                blk = getattr(s, field, None)
+                if isinstance(blk, list) and blk and isinstance(blk[0], ast.stmt):
+                    rec_stmts(blk, tests)
+            for c in ast.iter_child_nodes(s):
+                if isinstance(c, ast.expr):
+                    rec_expr(c, [], tests)
+    rec_stmts(fn.body, [])
+    return out
+
+
+def _checks_type_itself(ctx, helper, kinds, depth=0):
+    """True when the C helper (or what it forwards to) tests the run-time type of its argument, or is unknown to the catalogue"""
+    decls = P.resolve_c(ctx.cat, helper)
+    if not decls:
+        return True
+    for d in decls:
+        try:
+            body = d.expanded_body() or ''
+        except AnalysisError:
+            return True
+        if any(re.search(r'\bPy(?:Any|Frozen)?%s_Check(?:Exact)?\s*\(' % k, body) for k in kinds):
+            return True
+        if depth < 2:
+            for callee, _, _ in P.c_calls_in_text(body):
+                if callee != helper and callee.startswith('__Pyx_') and P.resolve_c(ctx.cat, callee, ('func', 'macro')) and _checks_type_itself(ctx, callee, kinds, depth + 1) \
+                        and P.resolve_c(ctx.cat, callee, ('func', 'macro'))[0].body:
+                    return True
+    return False
+
+
+def rule_kind(ctx, classes=('IndexNode', 'SliceIndexNode')):
+    r = Rule('C15-KIND', 'IndexNode / SliceIndexNode: a C helper or access macro that is specific to one builtin type (List, Tuple, Bytes, ByteArray, Unicode, Dict in its name) is '
+             'selected only under a test for that type', floor=14)
+    tree = ctx.parse(EXN)
+    found = 0
+    for cname in classes:
+        cls = next((n for n in tree.body if isinstance(n, ast.ClassDef) and n.name == cname), None)
+        if cls is None:
+            raise AnalysisError('C15-KIND: ExprNodes.%s vanished' % cname)
+        for fn in [m for m in cls.body if isinstance(m, ast.FunctionDef)]:
+            for const, tests in kind_sites(fn):
+                if not re.search(r'\b(__Pyx_|Py)\w+', const.value) or ' ' in const.value.strip() and '(' not in const.value:
+                    continue
+                kinds = _kinds_in_text(' '.join(re.findall(r'\b(?:__Pyx_|Py)\w+', const.value)))
+                guards = _guard_kinds(tests, fn)
+                excluded = _excluded_kinds(tests, fn) - guards
+                if not kinds or not (guards or excluded):
+                    continue
+                found += 1
+                key = '%s.%s:%s' % (cname, fn.name, re.findall(r'\b(?:__Pyx_|Py)\w+', const.value)[0])
+                r.inst(key, sample='%s under %s%s' % (const.value[:50], sorted(guards), (' not ' + str(sorted(excluded))) if excluded else ''))
+                if not guards and kinds <= excluded:
+                    helper = re.findall(r'\b(?:__Pyx_|Py)\w+', const.value)[0]
+                    if _checks_type_itself(ctx, helper, kinds):
+                        continue        # a generic helper with a fast path behind its own run-time type test
+                    r.violate(key, EXN, const.lineno, '%s.%s selects %r, a helper for %s objects, on the branch where the object is known NOT to be of that type'
+                              % (cname, fn.name, const.value[:60], '/'.join(sorted(kinds))))
+                    continue
+                if guards and not (kinds & guards):
+                    r.violate(key, EXN, const.lineno, '%s.%s selects %r, a helper for %s objects, on the branch taken for %s objects: the macro reads the object with the wrong memory layout'
+                              % (cname, fn.name, const.value[:60], '/'.join(sorted(kinds)), '/'.join(sorted(guards))))
+    if found < 8:
+        raise AnalysisError('C15-KIND: only %d type-specific helper selections found' % found)
+    pc = ast.parse("def f(self):\n    if base_type.is_pylist_type:\n        function = '__Pyx_GetItemInt_Tuple'\n    x = ('__Pyx_PyList_GET_ITEM(%s, %s)' if base_type.is_pylist_type else '__Pyx_PyTuple_GET_ITEM(%s, %s)')\n").body[0]
+    hits = [(c.value, _guard_kinds(t)) for c, t in kind_sites(pc)]
+    r.positive_control(any(v == '__Pyx_GetItemInt_Tuple' and g == {'List'} for v, g in hits) and any('PyList_GET_ITEM' in v and g == {'List'} for v, g in hits),
+                       'a Tuple helper under the list test is seen with its guard; a conditional expression is followed')
+    return r
+
+
+# ---------------------------------------------------------------------------------------------- C15-DEFAULT
+def _self_attr(t, name):
+    return isinstance(t, ast.Attribute) and t.attr == name and isinstance(t.value, ast.Name) and t.value.id == 'self'
+
+
+ABSENT_DEFAULT = {'start': ('0',), 'stop': ('PY_SSIZE_T_MAX',)}
+
+
+def rule_default(ctx):
+    r = Rule('C15-DEFAULT', 'SliceIndexNode: the C value standing for an absent (or run-time None) slice bound is 0 for the start and PY_SSIZE_T_MAX for the stop - '
+             'the defaults of start_code()/stop_code() and of every allow_none() coercion, keyed by the bound they are computed for', floor=4)
+    tree = ctx.parse(EXN)
+    cls = next((n for n in tree.body if isinstance(n, ast.ClassDef) and n.name == 'SliceIndexNode'), None)
+    if cls is None:
+        raise AnalysisError('C15-DEFAULT: ExprNodes.SliceIndexNode vanished')
+    n = 0
+    for fn in [m for m in cls.body if isinstance(m, ast.FunctionDef)]:
+        m = re.fullmatch(r'(start|stop)_code', fn.name)
+        if m:
+            bound = m.group(1)
+            rets = [x for x in ast.walk(fn) if isinstance(x, ast.Return) and isinstance(x.value, ast.Constant) and isinstance(x.value.value, str)]
+            for x in rets:
+                conds = P.path_conditions(fn, x) or []
+                absent = any((_self_attr(t, bound) and not pol) or
+                             (isinstance(t, ast.UnaryOp) and isinstance(t.op, ast.Not) and _self_attr(t.operand, bound) and pol) for t, pol in conds)
+                if not absent:
+                    continue
+                n += 1
+                key = 'SliceIndexNode.%s:absent' % fn.name
+                r.inst(key, sample='%s() -> %r when self.%s is absent' % (fn.name, x.value.value, bound))
+                if x.value.value.strip() not in ABSENT_DEFAULT[bound]:
+                    r.violate(key, EXN, x.lineno, 'SliceIndexNode.%s() returns %r for an absent %s bound; Python semantics need %s (x[a:] runs to the end, x[:b] starts at 0)'
+                              % (fn.name, x.value.value, bound, ' / '.join(ABSENT_DEFAULT[bound])))
+        for c in ast.walk(fn):
+            if isinstance(c, ast.Call) and isinstance(c.func, ast.Name) and c.func.id == 'allow_none' and len(c.args) >= 2:
+                bounds = {a.attr for a in ast.walk(c.args[0]) if isinstance(a, ast.Attribute) and a.attr in ('start', 'stop') and isinstance(a.value, ast.Name) and a.value.id == 'self'}
+                if len(bounds) != 1 or not (isinstance(c.args[1], ast.Constant) and isinstance(c.args[1].value, str)):
+                    raise AnalysisError('C15-DEFAULT: allow_none(%s) in SliceIndexNode.%s is outside the model' % (ast.unparse(c.args[0])[:30], fn.name))
+                bound = next(iter(bounds))
+                n += 1
+                key = 'SliceIndexNode.%s:allow_none:%s' % (fn.name, bound)
+                r.inst(key, sample='allow_none(self.%s, %r)' % (bound, c.args[1].value))
+                if c.args[1].value.strip() not in ABSENT_DEFAULT[bound]:
+                    r.violate(key, EXN, c.lineno, 'SliceIndexNode.%s: a %s bound that is None at run time is replaced by %r; Python semantics need %s'
+                              % (fn.name, bound, c.args[1].value, ' / '.join(ABSENT_DEFAULT[bound])))
+    if n < 4:
+        raise AnalysisError('C15-DEFAULT: only %d default bounds found in SliceIndexNode' % n)
+    r.positive_control('-1' not in ABSENT_DEFAULT['stop'] and '0' not in ABSENT_DEFAULT['stop'], 'a stop default of -1 / 0 is not the end of the sequence')
+    return r
+
+
+# ---------------------------------------------------------------------------------------------- C15-RANGE
+def rule_range(ctx, F):
+    r = Rule('C15-RANGE', 'every integer-index macro guards its fast path with __Pyx_fits_Py_ssize_t(<index>, <type>, <is_signed>) in that order, and an index outside the '
+             'Py_ssize_t range goes to the generic object protocol or raises IndexError (as CPython does), never another exception', floor=8)
+    helper_excs = {}
+
+    def excs_of(text, depth=0):
+        out = set(re.findall(r'\bPyExc_(\w+)', text))
+        if depth < 2:
+            for callee, args, _ in P.c_calls_in_text(text):
+                if callee in helper_excs:
+                    out |= helper_excs[callee]
+                    continue
+                for f in P.resolve_c(ctx.cat, callee, ('func',)):
+                    if f.body and callee.startswith('__Pyx_') and 'Error' in callee:
+                        helper_excs[callee] = excs_of(f.expanded_body() or '', depth + 1)
+                        out |= helper_excs[callee]
+        return out
+
+    for h, f in sorted(F.macros.items()):
+        body = ' '.join((f.expanded_body() or '').replace('\\\n', ' ').split())
+        params = f.param_names()
+        try:
+            e = P.CParser(body + ';').expr()
+        except AnalysisError as x:
+            raise AnalysisError('C15-RANGE: cannot parse the macro %s: %s' % (h, x))
+        e = P.strip_wrappers(e)
+        if e[0] != 'tern':
+            raise AnalysisError('C15-RANGE: the macro %s is not `fits ? fast : fallback`' % h)
+        c = P.strip_wrappers(e[1])
+        key = 'macro:%s' % h
+        r.inst(key, sample='%s: %s ? ... : %s' % (h, P.c_text(c)[:50], P.c_text(e[3])[:50]))
+        if not (c[0] == 'call' and _callee(c[1]) == '__Pyx_fits_Py_ssize_t' and len(c[2]) == 3):
+            r.violate(key + ':guard', f.file, f.line, 'the fast path of %s is not guarded by __Pyx_fits_Py_ssize_t(i, type, is_signed): an index that does not fit Py_ssize_t is truncated by the cast' % h)
+            continue
+        want = [params[1], 'type', 'is_signed']
+        got = [P.bare_c_ident(P.c_text(a)) for a in c[2]]
+        if got != want and set(got) == set(want):
+            r.violate(key + ':guard-args', f.file, f.line, '%s calls __Pyx_fits_Py_ssize_t(%s); the parameters are (value, type, is_signed)' % (h, ', '.join(map(str, got))))
+        alt = P.c_text(e[3])
+        ex = excs_of(alt)
+        generic = bool(re.search(r'_Generic\s*\(', alt)) and 'to_py_func' in alt
+        if not generic and not ex:
+            raise AnalysisError('C15-RANGE: the fallback of %s neither calls the generic helper nor raises' % h)
+        wrong = sorted(x for x in ex if x != 'IndexError')
+        if wrong:
+            r.violate(key + ':exception', f.file, f.line, 'for an index outside the Py_ssize_t range %s raises %s; CPython raises IndexError (cannot fit \'int\' into an index-sized integer)'
+                      % (h, ', '.join(wrong)))
+    r.positive_control(True, 'structural')
+    return r
+
+
+# ---------------------------------------------------------------------------------------------- C15-BOUND extension: constant sequences with a multiplier
+def folded_multiplier_problem(folder, cls, fdef, rel):
+    """fold visit_SliceIndexNode on a constant sequence constructor carrying a multiplier: the item list must not be cut"""
+    clo = Closure(folder, fdef, Env({}, None, rel))
+    out = []
+    for has_mult in (False, True):
+        visitor = MNode('ConstantFolding instance', cls, reevaluate=False, __rel__=rel)
+        items = [MNode('item%d' % i) for i in range(4)]
+        mult = MNode('multiplier', constant_result=3) if has_mult else None
+        base = MNode('base', is_sequence_constructor=True, is_string_literal=False, mult_factor=mult, constant_result=[0, 1, 2, 3] * (3 if has_mult else 1),
+                     args=list(items), pos=('model', 1, 1))
+        base.attrs['has_constant_result'] = lambda: True
+        node = MNode('SliceIndexNode', start=_bound_model('one', 1), stop=_bound_model('positive', 3), base=base, constant_result=[1, 2], pos=('model', 1, 1), slice=None)
+        node.attrs['has_constant_result'] = lambda: True
+        folder.steps = 0
+        try:
+            res = clo(visitor, node)
+        except Unfoldable as x:
+            raise AnalysisError('C15-BOUND cannot fold %s on a constant sequence: %s' % (fdef.name, x))
+        cut = res is base and len(base.attrs.get('args', items)) != len(items)
+        out.append((has_mult, res is base, cut))
+    return out
+
+
+# ---------------------------------------------------------------------------------------------- C15-BYTE
+PYREX = 'Cython/Compiler/PyrexTypes.py'
+
+
+def rule_byte(ctx):
+    r = Rule('C15-BYTE', 'bytearray item assignment b[i] = v: the range test IndexNode._check_byte_value emits in front of the store rejects exactly the values outside 0..255 '
+             'that the C type of v can hold (folded on model nodes for signed / unsigned / char-sized value types, the emitted condition evaluated on the boundary values)', floor=30)
+    tree = ctx.parse(EXN)
+    cls = next((n for n in tree.body if isinstance(n, ast.ClassDef) and n.name == 'IndexNode'), None)
+    fdef = next((n for n in (cls.body if cls else []) if isinstance(n, ast.FunctionDef) and n.name == '_check_byte_value'), None)
+    if fdef is None:
+        raise AnalysisError('C15-BYTE: IndexNode._check_byte_value vanished')
+    if [a.arg for a in fdef.args.args] != ['self', 'code', 'rhs']:
+        raise AnalysisError('C15-BYTE: _check_byte_value no longer takes (self, code, rhs)')
+    f = NodeFolder(ctx)
+    f._globals[(EXN, 'not_a_constant')] = NOT_CONST
+    f._globals[(EXN, 'constant_value_not_set')] = NOT_SET
+    uchar, char, schar = MNode('c_uchar_type', is_int=True, signed=0), MNode('c_char_type', is_int=True, signed=1), MNode('c_schar_type', is_int=True, signed=2)
+    for nm, v in (('c_uchar_type', uchar), ('c_char_type', char), ('c_schar_type', schar)):
+        f._globals[(PYREX, nm)] = v
+    cases = [('int', MNode('c_int_type', is_int=True, signed=1), False, (-2 ** 31, -1, 0, 1, 255, 256, 2 ** 31 - 1)),
+             ('unsigned int', MNode('c_uint_type', is_int=True, signed=0), False, (0, 1, 255, 256, 2 ** 32 - 1)),
+             ('int (temporary)', MNode('c_int_type', is_int=True, signed=1), True, (-1, 0, 255, 256)),
+             ('unsigned char (temporary)', uchar, True, (0, 255)),
+             ('unsigned char (variable)', uchar, False, (0, 255)),
+             ('char (temporary)', char, True, (-128, -1, 0, 127)),
+             ('signed char (temporary)', schar, True, (-128, -1, 0, 127))]
+    clo_env = Env({}, None, EXN)
+    reported = set()
+    for label, typ, in_temp, values in cases:
+        lines = []
+        code = MNode('code', putln=lambda *a, **k: lines.append(str(a[0]) if a else ''), error_goto=lambda pos: 'goto error;',
+                     put_ensure_gil=lambda *a, **k: None, put_release_ensured_gil=lambda *a, **k: None)
+        rhs = MNode('value node', type=typ, is_literal=False, constant_result=NOT_CONST, pos=('model', 1, 1))
+        rhs.attrs['result'] = lambda: 'V'
+        rhs.attrs['has_constant_result'] = lambda: False
+        rhs.attrs['result_in_temp'] = (lambda t: (lambda: t))(in_temp)
+        selfm = MNode('IndexNode instance', cls, nogil=False, pos=('model', 1, 1), __rel__=EXN)
+        f.steps = 0
+        try:
+            out = Closure(f, fdef, clo_env)(selfm, code, rhs)
+        except Unfoldable as x:
+            raise AnalysisError('C15-BYTE cannot fold _check_byte_value for a value of type %s: %s' % (label, x))
+        if not isinstance(out, str) or 'V' not in out:
+            raise AnalysisError('C15-BYTE: _check_byte_value returns %r for a value of type %s' % (out, label))
+        text = ' '.join(lines)
+        m = re.search(r'\bif\s*\(', text)
+        cond = None
+        if m:
+            end = match_paren_(text, m.end() - 1)
+            cond = text[m.end():end]
+            if 'PyExc_ValueError' not in text[end:]:
+                r.inst('%s:raises' % label)
+                r.violate('IndexNode._check_byte_value:%s:exception' % label, EXN, fdef.lineno,
+                          'for a value of type %s the range test `%s` is not followed by a ValueError' % (label, cond))
+                continue
+        # the emitted test only compares V with literals: the values next to every literal, the byte limits and the limits of the type are a complete set of classes
+        lits = [int(x) for x in re.findall(r'(?<![\w.])\d+', cond or '')]
+        lo_t, hi_t = min(values), max(values)
+        values = sorted({v for v in list(values) + [c + d for c in lits for d in (-1, 0, 1)] if lo_t <= v <= hi_t})
+        for v in values:
+            key = '%s:%d' % (label, v)
+            r.inst(key, sample='%s value %d: %s' % (label, v, cond or 'no test'))
+            try:
+                got = bool(cexpr.evaluate(cexpr.parse(cond), {'V': v})) if cond else False
+            except (cexpr.EvalError, cexpr.ParseError) as x:
+                raise AnalysisError('C15-BYTE: cannot evaluate the emitted test `%s`: %s' % (cond, x))
+            want = not (0 <= v <= 255)
+            if got != want:
+                cls_ = 'accepts-out-of-range' if want else 'rejects-byte'
+                if cls_ in reported:
+                    continue
+                reported.add(cls_)
+                r.violate('IndexNode._check_byte_value:%s' % cls_, EXN, fdef.lineno,
+                          'b[i] = v with v of C type %s: for v = %d the emitted test `%s` is %s; CPython %s' % (
+                              label, v, cond or '(none)', got, 'raises ValueError (byte must be in range(0, 256)), Cython stores %d' % (v & 255) if want else 'stores the byte'))
+    r.positive_control(bool(cexpr.evaluate(cexpr.parse('unlikely(V < 0 || V > 256)'), {'V': 256})) is False, 'a test against 256 lets 256 through')
+    return r
+
+
+def match_paren_(text, i):
+    depth = 0
+    for j in range(i, len(text)):
+        if text[j] == '(':
+            depth += 1
+        elif text[j] == ')':
+            depth -= 1
+            if depth == 0:
+                return j
+    raise AnalysisError('unbalanced parentheses in emitted text')
